@@ -2,6 +2,7 @@
 import json, os, sys, time
 
 from .build import VERIF, AnalysisBroken
+from .build import scratch as build_scratch
 
 HOLDS, VIOLATION, UNKNOWN = "HOLDS", "VIOLATION", "UNKNOWN"
 
@@ -130,11 +131,12 @@ class Report:
             "violations": len(real),
         }
         ev["coverage"].update(self.extra)
-        os.makedirs(os.path.join(VERIF, "evidence"), exist_ok=True)
-        evpath = os.path.join(VERIF, "evidence", "%s.json" % self.prop)
-        with open(evpath, "w") as f:
-            json.dump(ev, f, indent=1, sort_keys=True)
-            f.write("\n")
+        if not os.environ.get("VERIF_NO_EVIDENCE"):
+            os.makedirs(os.path.join(VERIF, "evidence"), exist_ok=True)
+            evpath = os.path.join(VERIF, "evidence", "%s.json" % self.prop)
+            with open(evpath, "w") as f:
+                json.dump(ev, f, indent=1, sort_keys=True)
+                f.write("\n")
         print("== %s tier=%s: %d obligations over %d rules, %d discharged, %d known findings, %d violations, %d unknown (%.1fs)"
               % (self.prop, self.tier, obligations, len(self.rules), discharged, len(known_hit), len(real), len(self.unknowns), wall))
         for rid, r in sorted(self.rules.items()):
@@ -146,7 +148,7 @@ class Report:
                 print("ANALYSIS-BROKEN: %s" % u)
             return 2
         if real:
-            rdir = os.path.join(VERIF, "evidence", "replay")
+            rdir = os.path.join(VERIF, "evidence", "replay") if not os.environ.get("VERIF_NO_EVIDENCE") else os.path.join(build_scratch(), "replay")
             os.makedirs(rdir, exist_ok=True)
             for n, f in enumerate(real):
                 rp = os.path.join(rdir, "%s-%d.json" % (self.prop, n))
